@@ -248,11 +248,12 @@ type c14in struct {
 	respLen int
 	respPat string
 	kind    string // plain | sse | upgrade | cut | abort-upload | abort-wait
+	te      bool   // the request body is sent with Transfer-Encoding: chunked (no declared length)
 }
 
 func (c c14in) name() string {
 	s := c14Services[c.svc]
-	return fmt.Sprintf("svc=%d(reqbuf=%v respbuf=%v M=%d Lreq=%d Lresp=%d) req=%d/%s resp=%d/%s kind=%s", c.svc, s.reqBuf, s.respBuf, s.M, s.Lreq, s.Lresp, c.reqLen, c.reqPat, c.respLen, c.respPat, c.kind)
+	return fmt.Sprintf("svc=%d(reqbuf=%v respbuf=%v M=%d Lreq=%d Lresp=%d) req=%d/%s resp=%d/%s kind=%s te=%v", c.svc, s.reqBuf, s.respBuf, s.M, s.Lreq, s.Lresp, c.reqLen, c.reqPat, c.respLen, c.respPat, c.kind, c.te)
 }
 
 func c14Level2(c c14in) func(w *World) []Violation {
@@ -290,6 +291,9 @@ func c14Level2(c c14in) func(w *World) []Violation {
 			spec.Body = []byte{}
 		}
 		spec.BodyGap = 20 * time.Millisecond
+		if c.te && len(body) > 0 {
+			spec.Chunked = true
+		}
 		if c.kind == "upgrade" {
 			spec.BodyChunks, spec.Body = nil, nil
 		}
@@ -489,6 +493,11 @@ func c14Cases(tier string) []ECase {
 						cases = append(cases, ECase{Name: "L2 " + in.name(), Class: fmt.Sprintf("L2 svc=%d plain", si), Run: c14Level2(in)})
 					}
 				}
+				if s.reqBuf && rl > 0 {
+					// the same request bodies without a declared length
+					in := c14in{svc: si, reqLen: rl, reqPat: rp, respLen: 0, respPat: "one", kind: "plain", te: true}
+					cases = append(cases, ECase{Name: "L2 " + in.name(), Class: fmt.Sprintf("L2 svc=%d chunked-request", si), Run: c14Level2(in)})
+				}
 				if s.respBuf && s.Lresp > 0 && rp == "one" && rl == 0 {
 					// a piece that takes the body over the limit followed by a smaller one that would fit again,
 					// with the first piece filling the memory buffer exactly or spilling
@@ -520,7 +529,7 @@ func checkC14(t *testing.T, job *Job, res *Result) {
 	if job.Replay != nil {
 		tier = job.Replay.Tier
 	}
-	res.Rule = "level 1: Buffer directly: memory limit M in {0,1,2,3,5} x total limit L in {0,M-1,M,M+1,2M+1} x body length 0..L+2 (<=7 quick, <=9 thorough) x EVERY composition of the body into write chunks x read-back chunking {1,2,all}; level 2: through the handler chain: request/response buffering on/off x (M,Lreq,Lresp) x body lengths {0,M,M+1,L,L+1,L+5,9} x chunk patterns {one, bytewise, M|rest, piece over the limit followed by a piece that fits again} with virtual gaps x endings {success, 413, 500, target cut mid-body, client abort mid-upload, client abort while waiting} x {plain, event stream with timed events, upgrade}; oracle: accepted/overflow decisions, memory bound, spill presence, exact bytes, timing on the virtual clock, no spill file left"
+	res.Rule = "level 1: Buffer directly: memory limit M in {0,1,2,3,5} x total limit L in {0,M-1,M,M+1,2M+1} x body length 0..L+2 (<=7 quick, <=9 thorough) x EVERY composition of the body into write chunks x read-back chunking {1,2,all}; level 2: through the handler chain: request/response buffering on/off x (M,Lreq,Lresp) x body lengths {0,M,M+1,L,L+1,L+5,9} x chunk patterns {one, bytewise, M|rest, piece over the limit followed by a piece that fits again} with virtual gaps x request bodies with and without a declared length x endings {success, 413, 500, target cut mid-body, client abort mid-upload, client abort while waiting} x {plain, event stream with timed events, upgrade}; oracle: accepted/overflow decisions, memory bound, spill presence, exact bytes, timing on the virtual clock, no spill file left"
 	res.Bounds = "see rule"
 	runE(t, job, res, &ESpec{Prop: "C14", Setup: c14Setup, Cases: c14Cases(tier), Batch: 300})
 }
